@@ -48,7 +48,7 @@ def execute(record: dict, rng: Optional[random.Random]) -> Outcome:
     ftr = HdrFtr("f", nf, wid) if nf else None
     _, stream, exp_obs = _mk_chunks(subs)
     full = (b"H" * nh if nh else b"") + stream + (b"F" * nf if nf else b"")
-    probes = {"layerB_runs": 1, "layerB_fold_depth_gt1": 0, "layerB_parallel_writer_calls": 0}
+    probes = {"layerB_runs": 1, "layerB_fold_depth_gt1": 0, "layerB_parallel_writer_calls": 0, "layerB_line_preemption": 0}
 
     bags = []
     cid = 0
@@ -63,7 +63,13 @@ def execute(record: dict, rng: Optional[random.Random]) -> Outcome:
         bags.append(Bag(HighLevelGraph.from_collections(name, dsk, dependencies=[]), name, len(parts)))
 
     workers = dcfg.get("workers", 1)
-    kernel = Kernel() if workers > 1 else None
+    # worker threads are pre-empted at the writer seams only, or ("trace": "lines") at every line of _mpu.py as well:
+    # state shared between tasks that looks private (module-level scratch, objects aliased between partitions) only
+    # shows when one MPU op is interleaved with another
+    tfiles = (M.__file__,) if dcfg.get("trace") == "lines" else ()
+    kernel = Kernel(trace_files=tfiles) if workers > 1 else None
+    if kernel is not None and tfiles:
+        probes["layerB_line_preemption"] = 1
     sim = DaskSim(
         ch,
         log,
